@@ -39,12 +39,16 @@ class NDesc(object):
         self.kind = 0
         self.coro = []
         self.susp = []
+        self.self_model = False   # the machine is its own model (the library's default `model='self'`)
+        self.evnames = []         # [[ev, name]]: events not called 'e<ev>' (e.g. an event named 'final')
+        self.bystander = False    # a second machine of the same class is alive (own dynamically registered on_final)
         self.flags = None        # optional list of final-flag placements applied in turn (exhaustive tier)
 
     def to_json(self):
         return {'nodes': self.nodes, 'roots': self.roots, 'initial': self.initial, 'mcbs': self.mcbs,
                 'trans': self.trans, 'history': [list(h) for h in self.history], 'kind': self.kind,
-                'coro': list(self.coro), 'susp': [list(x) for x in self.susp]}
+                'coro': list(self.coro), 'susp': [list(x) for x in self.susp], 'self_model': self.self_model,
+                'evnames': [list(x) for x in self.evnames], 'bystander': self.bystander}
 
     @staticmethod
     def from_json(j):
@@ -58,6 +62,9 @@ class NDesc(object):
         d.kind = j.get('kind', 0)
         d.coro = list(j.get('coro', []))
         d.susp = [list(x) for x in j.get('susp', [])]
+        d.self_model = bool(j.get('self_model', False))
+        d.evnames = [list(x) for x in j.get('evnames', [])]
+        d.bystander = bool(j.get('bystander', False))
         return d
 
     # -- names -------------------------------------------------------------------------------
@@ -80,6 +87,19 @@ class NDesc(object):
         p = self.path(i)
         k = p.index(scope)
         return SEP.join(seg(self.obj(x)) for x in p[k + 1:])
+
+    def ename(self, ev):
+        return dict((e, n) for e, n in self.evnames).get(ev, 'e%d' % ev)
+
+    def machine_final_attr(self):
+        """`getattr(machine, 'final', False)` is truthy: the machine is its own model and an event is named 'final'"""
+        return self.self_model and any(n == 'final' for _e, n in self.evnames)
+
+    def reg(self, i):
+        """how each on_final callback of node i is registered: 0 = `on_final=` at construction, 1 = a model method
+        named on_final_<state>, 2 = `machine.on_final_<state>(cb)` after construction (list order = this order)"""
+        nd = self.nodes[i]
+        return nd.get('reg') or [0] * len(nd['cbs'])
 
     def shared(self):
         objs = [self.obj(i) for i in range(len(self.nodes))]
@@ -239,6 +259,24 @@ def gen_desc(rng, kn=None, kind=0):
             d.history.append(('to', rng.randrange(n)))
         else:
             d.history.append(('e', rng.randrange(nev)))
+    # registration of the on_final callbacks: at construction, through a model method on_final_<state>, or through the
+    # dynamic machine.on_final_<state>(cb) after construction (states without constructor callbacks get no on_final key)
+    for nd in d.nodes:
+        if nd['cbs'] and rng.random() < 0.45:
+            reg = [rng.choice((1, 2))] + [2] * (len(nd['cbs']) - 1)
+            if rng.random() < 0.3 and len(reg) > 1:
+                reg[0] = 0
+            nd['reg'] = sorted(reg)
+    d.self_model = rng.random() < 0.3
+    if d.self_model:
+        # on a machine that is its own model `machine.on_final_<state>` IS the model method when there is one:
+        # no dynamic registration next to a model method for the same state
+        for nd in d.nodes:
+            if 1 in nd.get('reg', []) and 2 in nd['reg']:
+                nd['reg'] = sorted(0 if r == 1 else r for r in nd['reg'])
+    d.bystander = rng.random() < 0.3
+    if rng.random() < (0.6 if d.self_model else 0.15):
+        d.evnames = [[rng.randrange(nev), 'final']]
     if kind == 1:
         ncb = max([0] + d.mcbs + [c for nd in d.nodes for c in nd['cbs']])
         d.coro = [c for c in range(1, ncb + 1) if rng.random() < 0.6]
@@ -406,6 +444,9 @@ def small_desc(nodes, roots, kind=0):
     d.mcbs = [len(nodes) + 1]
     d.kind = kind
     n = len(nodes)
+    for i, nd in enumerate(d.nodes):
+        if i % 2 == 1:
+            nd['reg'] = [2]       # machine.on_final_<state>(cb) after construction; the state gets no on_final argument
     if kind == 1:
         # every state's recorder suspends, deeper states longer; the machine's does not
         d.coro = list(range(1, n + 2))
@@ -481,12 +522,21 @@ class NRun(object):
         self.d = desc
         self.cur = None
         self.log = []
-        self.model = _Model()
         self._snaps = {}
         self.emb = {}
         self._shared = desc.shared()
         self.is_async = desc.kind == 1
-        self.machine = self.build()
+        self.by = self.build_bystander() if desc.bystander else None
+        methods = self.model_methods()
+        self.model = None if desc.self_model else type('Model', (_Model,), methods)()
+        self.machine = self.build(methods)
+        if desc.self_model:
+            self.model = self.machine
+        for i in range(len(desc.nodes)):
+            for c, r in zip(desc.nodes[i]['cbs'], desc.reg(i)):
+                if r == 2:
+                    getattr(self.machine, 'on_final_' + desc.full_name(i))(self.final_rec(i, c))
+
 
     # -- recorders ---------------------------------------------------------------------------
     def snap(self):
@@ -521,6 +571,26 @@ class NRun(object):
             return g
         return f
 
+    def final_rec(self, i, c):
+        return self.rec(lambda: ('final', i, c, self.snap()), cb=c, end=lambda: ('final_end', i, c))
+
+    def model_methods(self):
+        """model methods named on_final_<state> (picked up by `_add_model_to_state`)"""
+        out = {}
+        d = self.d
+        for i in range(len(d.nodes)):
+            for c, r in zip(d.nodes[i]['cbs'], d.reg(i)):
+                if r == 1:
+                    out['on_final_' + d.full_name(i)] = (lambda f: (lambda _self, *a, **k: f(*a, **k)))(self.final_rec(i, c))
+        return out
+
+    def build_bystander(self):
+        """another machine of the same class in the same process, with states that have no on_final of their own and
+        one callback registered dynamically; nothing of it may ever run in the machine under test"""
+        by = self.machine_cls()(states=['p', {'name': 'q', 'final': True}, {'name': 'r', 'children': ['s']}], initial='p')
+        by.on_final_q(self.rec(lambda: ('final', -2, 0, self.snap())))
+        return by
+
     def cond(self, value):
         def f(*_a, **_k):
             return value
@@ -535,7 +605,7 @@ class NRun(object):
         else:
             src = d.full_name(t['src'])
             dst = None if t['dst'] is None else d.full_name(t['dst'])
-        td = {'trigger': 'e%d' % t['ev'], 'source': src, 'dest': dst,
+        td = {'trigger': d.ename(t['ev']), 'source': src, 'dest': dst,
               'before': [self.rec(lambda: ('before', ti))],
               'after': [self.rec(lambda: ('after', ti, self.snap()), co=(ti % 2 == 0))]}
         if t['cond'] is not None:
@@ -549,8 +619,10 @@ class NRun(object):
               'on_enter': [self.rec(lambda: ('enter', self.who(i), self.snap()), co=(i % 2 == 1),
                                    end=lambda: ('enter_end', self.who(i)), susp=i % 3)],
               'on_exit': [self.rec(lambda: ('exit', self.who(i)), co=(i % 3 == 0))],
-              'on_final': [self.rec((lambda c: (lambda: ('final', i, c, self.snap())))(c), cb=c,
-                                   end=(lambda c: (lambda: ('final_end', i, c)))(c)) for c in nd['cbs']]}
+              }
+        ctor = [self.final_rec(i, c) for c, r in zip(nd['cbs'], d.reg(i)) if r == 0]
+        if ctor:
+            sd['on_final'] = ctor          # otherwise the state is created without an on_final argument
         if nd.get('emb'):
             # the children are ONE child machine instance, possibly embedded under several hosts (README "reuse of
             # previously created HSMs"): `_add_machine_states` adds the child's state objects themselves
@@ -594,12 +666,14 @@ class NRun(object):
             t = t[1][0]
         return t[0]
 
-    def build(self):
+    def build(self, methods=None):
         d = self.d
         cls = self.machine_cls()
+        if d.self_model:
+            cls = type('SelfModel', (cls,), dict(methods or {}))
         states = [self.node_def(i) for i in d.roots]
         transitions = [self.trans_def(ti, t, False) for ti, t in enumerate(d.trans) if t['scope'] is None]
-        return cls(model=self.model, states=states, transitions=transitions, initial=d.full_name(d.initial),
+        return cls(model=(cls.self_literal if d.self_model else self.model), states=states, transitions=transitions, initial=d.full_name(d.initial),
                    auto_transitions=True, ignore_invalid_triggers=True,
                    before_state_change=[self.rec(lambda: ('bsc',))],
                    after_state_change=[self.rec(lambda: ('asc', self.snap()))],
@@ -615,7 +689,7 @@ class NRun(object):
     def call(self, cmd):
         if cmd[0] == 'to':
             return getattr(self.model, 'to_' + self.d.full_name(cmd[1]))()
-        return self.model.trigger('e%d' % cmd[1])
+        return self.model.trigger(self.d.ename(cmd[1]))
 
     def step(self, cmd):
         self.cur = []
@@ -788,7 +862,7 @@ def judge_segment(d, final, sg):
     got = sg.finals()
     # multiplicity: exactly the callbacks of the owners that fire, once each (owners are named by their state
     # OBJECT here: the on_final recorder of an object that sits at several paths cannot tell them apart)
-    ob = lambda o: o if o == -1 else d.obj(o)       # noqa: E731
+    ob = lambda o: o if o < 0 else d.obj(o)       # noqa: E731
     want_calls = sorted((ob(o), c) for o in want for c in cbs_of(o))
     got_calls = sorted(got)
     if want_calls != got_calls:
